@@ -487,10 +487,16 @@ def align_variable_names_with_convention(
         | constants.BUILTIN_FUNCTIONS
         | constants.PYTHON_KEYWORDS
     )
+    # Names that are also bound by statements that are not renamed here
+    fixed_names = tracing.get_imported_names(ast_tree) | {
+        name for node in core.walk(ast_tree, (ast.Global, ast.Nonlocal)) for name in node.names
+    }
     renamings = {
         node: list(substitutes)[0]
         for node, substitutes in renamings.items()
-        if len(substitutes) == 1 and blacklisted_names.isdisjoint(substitutes)
+        if len(substitutes) == 1
+        and blacklisted_names.isdisjoint(substitutes)
+        and (node.id if isinstance(node, ast.Name) else node.name) not in fixed_names
     }
     substitute_node_renamings = collections.defaultdict(set)
     for node, substitute in renamings.items():
